@@ -89,10 +89,13 @@ func safeRange(b *pclog.ProcessLogBuffer, off, lim int) (res []string, ok bool, 
 		}
 	}()
 	r := b.GetLogRange(off, lim)
+	lastRaw = r // the very slice the buffer handed out (callers such as the REST handler keep using it)
 	cp := make([]string, len(r))
 	copy(cp, r)
 	return cp, true, ""
 }
+
+var lastRaw []string
 
 func runCase(c *Case) {
 	b := pclog.NewLogBuffer(c.Size)
@@ -106,6 +109,7 @@ func runCase(c *Case) {
 		o.tail = tail
 		return o
 	}
+	var held []heldWindow
 	for _, op := range c.Ops {
 		var out []uint64
 		ok := true
@@ -170,6 +174,11 @@ func runCase(c *Case) {
 				c.Panic = msg
 			}
 			out = ids(r)
+			// the caller keeps the window it was given (the REST handler serialises it after the lock is released):
+			// it is looked at again when all later writes have happened
+			if rok {
+				held = append(held, heldWindow{idx: len(c.Outs), lines: lastRaw})
+			}
 		}
 		if out == nil {
 			out = []uint64{}
@@ -181,6 +190,11 @@ func runCase(c *Case) {
 			// the mutex is still held after a panic inside GetLogsAndSubscribe: stop this case here
 			c.Ops = c.Ops[:len(c.Outs)]
 			break
+		}
+	}
+	for _, h := range held {
+		if h.idx < len(c.Outs) {
+			c.Outs[h.idx] = ids(h.lines) // what the holder of the window sees now
 		}
 	}
 	if c.Panic != "" && len(c.Ops) > 0 && c.Ops[len(c.Ops)-1].K == "sub" && !c.OutOK[len(c.OutOK)-1] {
@@ -245,6 +259,29 @@ func genRandom(r *rand.Rand, next *uint64, maxOps int) *Case {
 		default:
 			c.Ops = append(c.Ops, Op{K: "range", A: pickInt(r, written), B: pickInt(r, written)})
 		}
+	}
+	return c
+}
+
+type heldWindow struct {
+	idx   int
+	lines []string
+}
+
+// a window is requested when the buffer is exactly full (size+slack lines), then the line that triggers the trim is
+// written: the window the caller holds must not change under it
+func genHold(size int, extra int, next *uint64) *Case {
+	c := &Case{Kind: fmt.Sprintf("hold-size%d+%d", size, extra), Size: size}
+	for i := 0; i < size+100; i++ {
+		*next++
+		c.Ops = append(c.Ops, Op{K: "w", X: *next})
+	}
+	for _, ol := range [][2]int64{{0, 0}, {0, 3}, {2, 2}, {int64(size), 0}, {int64(size + 100), 0}, {7, 5}} {
+		c.Ops = append(c.Ops, Op{K: "range", A: ol[0], B: ol[1]})
+	}
+	for i := 0; i < extra; i++ {
+		*next++
+		c.Ops = append(c.Ops, Op{K: "w", X: *next})
 	}
 	return c
 }
@@ -346,6 +383,7 @@ func main() {
 		var next uint64
 		for n := 0; n <= 8; n++ {
 			cases = append(cases, genGrid(n, &next))
+			cases = append(cases, genHold(5+n, 1+n%3, &next))
 		}
 		r := rand.New(rand.NewSource(*seed))
 		for i := 0; i < *nrand; i++ {
